@@ -32,7 +32,7 @@ Lemma step_stolen_mono s t th c s' l :
 Proof.
   intros H. step_cases H.
   all: autorewrite with st; auto.
-  all: intro Hs; apply orb_false_elim in Hs; tauto.
+  all: intro Hs; discriminate.
 Qed.
 
 Lemma memb_app_r x l : memb x (l ++ [x]) = true.
@@ -74,6 +74,7 @@ Lemma step_inmap s t th c s' l e k :
 Proof.
   intros Ht H Hs Hk. step_cases H.
   all: autorewrite with st in *; auto.
+  all: try discriminate Hs.
   - (* upgrade *)
     destruct (k =? cur_q th) eqn:E.
     + apply Nat.eqb_eq in E. subst k. rewrite Heqo in Hk. inversion Hk; subst n.
@@ -81,16 +82,16 @@ Proof.
     + left. rewrite (mlookup_insert_hit _ _ _ _ _ Heqo), E. exact Hk.
   - left. rewrite mlookup_insert_some. destruct (k =? cur_q th) eqn:E; [|exact Hk].
     apply Nat.eqb_eq in E. subst k. rewrite Heqo in Hk. discriminate.
-  - apply orb_false_elim in Hs. destruct Hs as [_ Hs]. apply negb_false_iff, Nat.eqb_eq in Hs. subst n.
+  - match goal with X : (n =? _) = true |- _ => apply Nat.eqb_eq in X; subst n end.
     destruct (k =? cur_q th) eqn:E.
     + apply Nat.eqb_eq in E. subst k. rewrite Heqo in Hk. inversion Hk; subst. right; right; right; left. reflexivity.
     + left. rewrite mlookup_remove, E. exact Hk.
   - left. rewrite mlookup_remove. destruct (k =? cur_q th) eqn:E; [|exact Hk].
     apply Nat.eqb_eq in E. subst k. rewrite Heqo in Hk. discriminate.
-  - apply orb_false_elim in Hs. destruct Hs as [_ Hs]. apply negb_false_iff, option_eqb_some in Hs.
+  - match goal with X : option_eqb Nat.eqb _ _ = true |- _ => apply option_eqb_some in X; rename X into Hst end.
     destruct (k =? cur_q th) eqn:E.
     + apply Nat.eqb_eq in E. subst k. rewrite Heqo in Hk. inversion Hk; subst n.
-      right; right; right; right. exists s0. split; [exact Hs|].
+      right; right; right; right. exists s0. split; [exact Hst|].
       unfold has_thr. autorewrite with st.
       destruct (In_nth_error_app (upd (s_thr s) t (set_pc th (Ret RErrBad))) [mkT (D0 s0) [] []] (mkT (D0 s0) [] [])) as [i Hi]; [left; reflexivity|].
       exists i, (mkT (D0 s0) [] []). split; [exact Hi|reflexivity].
@@ -106,7 +107,6 @@ Proof.
       [apply in_map; exact Hk|].
     exists i, (closer_of (k, e)). split; [exact Hi|reflexivity].
 Qed.
-
 
 Lemma covered_step s t th c s' l e :
   nth_error (s_thr s) t = Some th -> step_th s t th c = Some (s', l) -> invD s ->
@@ -411,3 +411,4 @@ Definition fault_free (s : state) : Prop :=
                        | X1r _ o => o = CExecOk
                        | Ret r => r <> RErrBad /\ r <> RErrOther
                        | _ => True end).
+
